@@ -179,6 +179,7 @@ func vpKMNewCache() *ristretto.Cache[[]byte, any] {
 		NumCounters: 1e5,
 		MaxCost:     8 << 20,
 		BufferItems: 64,
+		Metrics:     true,
 	})
 	if err != nil {
 		panic(err)
